@@ -81,6 +81,18 @@ def generate():
         ty, txt = emit(kind, v)
         consts.append(f"Definition {name} : {ty} := {txt}.")
 
+    # ---------------------------------------------------------------- chunk codec: the fixed chunk width
+    mu = "bip_utils/utils/mnemonic/mnemonic_utils.py"
+    widths = []
+    for node in ast.walk(find_func(mu, "MnemonicUtils", "WordsToBytesChunk")):
+        if isinstance(node, ast.Call) and isinstance(node.func, ast.Attribute) and node.func.attr == "ToBytes":
+            for kw in node.keywords:
+                if kw.arg == "bytes_num":
+                    widths.append(lit(kw.value, mu, "bytes_num"))
+    if len(widths) != 1 or not isinstance(widths[0], int) or not 1 <= widths[0] <= 8:
+        fail(f"{mu}: WordsToBytesChunk: expected exactly one ToBytes(.., bytes_num=<int>, ..) call, found {widths}")
+    const("chunk_byte_len", "nat", widths[0])
+
     # ---------------------------------------------------------------- Monero
     xm = "bip_utils/monero/mnemonic/monero_mnemonic.py"
     xnum = reflect(xm, "MoneroMnemonicConst", "WORDS_LIST_NUM")
